@@ -38,7 +38,8 @@ fn main() {
     if args[1] == "c16-scenario" {
         let pad: usize = args.get(3).and_then(|x| x.parse().ok()).unwrap_or(0);
         let big = args.get(4).map(|x| x == "1").unwrap_or(false);
-        std::process::exit(cvx::checks::c16_pipes::scenario_main(args.get(2).map(|s| s.as_str()).unwrap_or("readall"), pad, big));
+        let errpad: usize = args.get(5).and_then(|x| x.parse().ok()).unwrap_or(0);
+        std::process::exit(cvx::checks::c16_pipes::scenario_main_err(args.get(2).map(|s| s.as_str()).unwrap_or("readall"), pad, big, errpad));
     }
     // self-checks on every invocation
     match cvx::dpll::self_check() {
